@@ -22,6 +22,14 @@ func (f *Frame) specEnv(st *State, phiVal func(*ssa.Phi) Val, phis []*ssa.Phi) *
 	for i, p := range f.fn.Params {
 		env.vars[p.Name()] = f.params[i]
 	}
+	// captured variables of a closure, by name
+	for _, fv := range f.fn.FreeVars {
+		if v, ok := f.vals[fv]; ok {
+			if _, shadow := env.vars[fv.Name()]; !shadow {
+				env.vars[fv.Name()] = v
+			}
+		}
+	}
 	// address-taken locals (Alloc) by source name, when the name is unique and already allocated
 	seen := map[string]int{}
 	for _, b := range f.fn.Blocks {
@@ -235,6 +243,24 @@ func (f *Frame) checkPost(vs []Val, pos token.Pos) {
 	}
 	env := f.specEnv(f.cur, nil, nil)
 	env.result = vs
+	// loop-carried variables of loops that dominate this return, by name: their value when the
+	// loop header was last entered (for loops that leave from the header: the final value)
+	for h := range f.loops {
+		if h != f.curB && !h.Dominates(f.curB) {
+			continue
+		}
+		for _, ins := range h.Instrs {
+			p, ok := ins.(*ssa.Phi)
+			if !ok {
+				break
+			}
+			if v, done := f.vals[p]; done && p.Comment != "" {
+				if _, shadow := env.vars[p.Comment]; !shadow {
+					env.vars[p.Comment] = v
+				}
+			}
+		}
+	}
 	res := f.fn.Signature.Results()
 	for i := 0; i < res.Len(); i++ {
 		if n := res.At(i).Name(); n != "" && n != "_" {
